@@ -65,6 +65,30 @@ pub fn vx_patch_u16(c: &mut BytesMut, pos: usize, v: u16)
     (&mut c.as_mut()[pos..pos + 2]).write_u16::<NetworkEndian>(v).unwrap();
 }
 
+/// `(&mut c.as_mut()[pos..end]).write_u32::<NetworkEndian>(v).unwrap()`: the window must exist (Rust's slice bounds check)
+/// and hold four bytes (or `unwrap` panics); its first four bytes are overwritten
+#[verifier::external_body]
+pub fn vx_patch_u32_in(c: &mut BytesMut, pos: usize, end: usize, v: u32)
+    requires pos + 4 <= end <= (*old(c)).bytes().len(),
+    ensures
+        (*final(c)).bytes().len() == (*old(c)).bytes().len(),
+        (*final(c)).bytes() == (*old(c)).bytes().subrange(0, pos as int) + be32(v) + (*old(c)).bytes().subrange(pos + 4, (*old(c)).bytes().len() as int),
+{
+    use byteorder::{NetworkEndian, WriteBytesExt};
+    (&mut c.as_mut()[pos..end]).write_u32::<NetworkEndian>(v).unwrap();
+}
+/// `(&mut c.as_mut()[pos..end]).write_u16::<NetworkEndian>(v).unwrap()`
+#[verifier::external_body]
+pub fn vx_patch_u16_in(c: &mut BytesMut, pos: usize, end: usize, v: u16)
+    requires pos + 2 <= end <= (*old(c)).bytes().len(),
+    ensures
+        (*final(c)).bytes().len() == (*old(c)).bytes().len(),
+        (*final(c)).bytes() == (*old(c)).bytes().subrange(0, pos as int) + be16(v) + (*old(c)).bytes().subrange(pos + 2, (*old(c)).bytes().len() as int),
+{
+    use byteorder::{NetworkEndian, WriteBytesExt};
+    (&mut c.as_mut()[pos..end]).write_u16::<NetworkEndian>(v).unwrap();
+}
+
 // ---- a generic `B: BufMut + AsMut<[u8]>` destination: length and in-place patches (R11 helpers) ---------------
 /// `dst.as_mut().len()`: the number of bytes written so far (a slice length: at most isize::MAX)
 #[verifier::external_body]
